@@ -31,8 +31,8 @@ def proof_side(pid, thorough):
     res = {"translate_ok": True, "build_ok": True, "broken": [], "axioms": {}, "theorems": []}
     tok, tmsg = core.translate()
     res["translate_ok"], res["translate_msg"] = tok, tmsg
-    if not tok:
-        res["broken"].append(f"translator: {tmsg}")
+    # (a unit the translator cannot render is left out of Gen/*.lean: exactly the properties whose theorems mention it then
+    #  fail to build below - no other property is affected)
     # only the modules this property's theorems depend on (a broken obligation of another property is that property's business)
     okb, log, failed = core.lake_build(tuple(f"ShapeVerif.Props.{m}" for m in core.props_modules(pid)) + ("driver",))
     res["build_ok"] = okb
